@@ -1,9 +1,11 @@
 import KyupyVerif.Model.Stil
 import KyupyVerif.Model.StilText
+import KyupyVerif.Proofs.StilExtract
 /-! Driver extension for C18: evaluates the STIL model.
 
 request : `stil <fn> <mode> <circ> <groups> <chains> <calls> <nxt>`
-* fn     : `tests` | `responses` | `loc` | `locinit` | `pats`
+* fn     : `tests` | `responses` | `loc` | `locinit` | `pats` | `hnd` | `blocks` (hypotheses of `C18.extract_blocks`: `nxt` =
+           `npre:haslaunch|...` per pattern block; the call list is cut accordingly and compared with `Stil.callsOf`)
 * mode   : two letters, interface `s` (s_nodes) / `u` ('DFF' in kind, as found) and inversion `f` (full vector) /
            `1` (first flag only, as found): `sf` = property, `u1` = stil.py as found
 * circ   : `io,io,...;name:kind,name:kind,...`
@@ -81,6 +83,22 @@ def showCols (r : Except Err (List (List V3))) : String :=
 
 def showDict (d : Dict) : String :=
   if d.isEmpty then "-" else ",".intercalate (d.map fun kv => pctEncode kv.1.toList ++ "=" ++ pctEncode kv.2)
+
+/-- cut a call list into blocks of the announced sizes (`npre` discarded `load_unload` calls, the block's own, optionally a launch
+    call, the capture call); the rest is returned. Nothing is checked here: the caller compares `callsOf` of the result with the
+    call list and evaluates `Blk.ok`. -/
+def cutBlocks : List (Nat × Bool) → List Call → Option (List Blk × List Call)
+  | [], cs => some ([], cs)
+  | (np, hl) :: r, cs =>
+    let pre := (cs.take np).map (·.params)
+    match cs.drop np with
+    | lu :: rest =>
+      let lr : Option (String × Dict) × List Call :=
+        if hl then (match rest with | l :: t => (some (l.name, l.params), t) | [] => (none, [])) else (none, rest)
+      match lr.2 with
+      | cap :: rest2 => (cutBlocks r rest2).map fun x => (⟨pre, lu.params, lr.1, cap.name, cap.params⟩ :: x.1, x.2)
+      | [] => none
+    | [] => none
 
 def showPats (ps : List Pat) : String :=
   "ok " ++ "|".intercalate (ps.map fun p =>
@@ -166,6 +184,20 @@ def handle (cmd : String) (args : List String) : Option String :=
       else if fn == "loc" then showCols (testsLoc m c f (parseNxt nxt))
       else if fn == "locinit" then showCols (locInit m c f)
       else if fn == "pats" then showPats (extract f)
+      else if fn == "blocks" then
+        -- hypotheses of C18.extract_blocks / extract_pattern on this call list: it IS `callsOf bs fin` for the announced block
+        -- sizes, every block is `ok`; `eq` = the conclusion (extract = expectPats), evaluated as a sanity check of the driver
+        let spec := (if nxt == "-" then [] else nxt.splitOn "|").map fun t =>
+          match t.splitOn ":" with
+          | [a, b] => (a.toNat!, b == "1")
+          | _ => (0, false)
+        match cutBlocks spec f.calls with
+        | some (bs, [fin]) =>
+          let shape := decide (f.calls = callsOf bs fin.params) && fin.name == "load_unload"
+          let ok := bs.all Blk.ok
+          let eq := decide (extract f = expectPats (f.chains.map (·.si)) (f.chains.map (·.so)) bs fin.params)
+          s!"shape={shape} ok={ok} eq={eq} blocks={bs.length}"
+        | _ => "shape=false ok=false eq=false blocks=0"
       else if fn == "hnd" then
         -- hypotheses `hnd` of C18.load_pos / pi_po_map (scan rows ++ _pi rows pairwise different) and of unload_pos / po_map
         -- (_po rows ++ scan rows), and "interface names pairwise different" (then rows = first positions, C18.rows_unique_names)
